@@ -19,7 +19,7 @@ func init() {
 	register("C05", func(e *Env) {
 		renderPrelude()
 		e.perShard = 50
-		e.rep.Rule = "a failing instrumented helper (fail1: logs its invocation, returns sentinel error E1) planted at every hole of 36 expression skeletons x 22 statement contexts (operands of every operator, conditions, branch bodies, loop iterable/body, array/hash elements, index, arguments of Go helpers / user functions / methods, helper blocks, contentFor/contentOf blocks, partial data and partial bodies), plus depth-2 compositions; the same holes filled with a partial whose body calls the failing helper and with partials that fail on an unknown identifier after logging that they ran (the helper's error wraps an unknown-identifier error: not the tolerated case); oracle: whenever the log shows the helper was invoked, Render must return an error with errors.Is(err, E1) and empty output; non-trivial = the helper was invoked; distinct by template"
+		e.rep.Rule = "a failing instrumented helper (fail1: logs its invocation, returns sentinel error E1) planted at every hole of 36 expression skeletons x 22 statement contexts (operands of every operator, conditions, branch bodies, loop iterable/body, array/hash elements, index, arguments of Go helpers / user functions / methods, helper blocks, contentFor/contentOf blocks, partial data and partial bodies), plus depth-2 compositions; call sites evaluated several times in one render with different functions (the failing one not first); the same holes filled with a partial whose body calls the failing helper and with partials that fail on an unknown identifier after logging that they ran (the helper's error wraps an unknown-identifier error: not the tolerated case); oracle: whenever the log shows the helper was invoked, Render must return an error with errors.Is(err, E1) and empty output; non-trivial = the helper was invoked; distinct by template"
 		pre := "<% let g = fn(a, b) { return a } %>"
 		check := func(tag, tmpl string) {
 			c := RCase{Tmpl: pre + tmpl, Binds: stdBinds(), Parts: stdParts}
@@ -86,6 +86,16 @@ func init() {
 			check2("d1b", strings.Replace(cx, "E", `partial("badblk")`, 1))
 			check2("d1b", strings.Replace(cx, "E", `!partial("badblk")`, 1))
 			check2("d1b", strings.Replace(cx, "E", `partial("badblk") == nil`, 1))
+		}
+		// one call site evaluated several times in a render with different functions, the failing one
+		// not first (loop over functions, a function taking a function, a stored block replayed)
+		for _, t := range []string{
+			`<%= for (h) in [cnt, fail1] { %>[<%= h() %>]<% } %>`, `<%= for (h) in [cnt, cnt, fail1, cnt] { %>[<%= h() %>]<% } %>`,
+			`<% let call = fn(h) { return h() } %><%= call(cnt) %>|<%= call(fail1) %>`, `<% let call = fn(h) { return h() } %><%= call(rec0) %>|<%= call(cnt) %>|<%= if (call(fail1)) { %>y<% } %>`,
+			`<% contentFor("cf") { %><%= h() %><% } %><%= contentOf("cf", {h: cnt}) %>|<%= contentOf("cf", {h: fail1}) %>`,
+			`<%= for (h) in [id, fail1] { %><%= for (x) in [1] { %>[<%= h(x) %>]<% } %><% } %>`, `<% let twice = fn(h) { return h() + h() } %><%= twice(rec0) %><%= twice(fail1) %>`,
+		} {
+			check("callsite-reuse", t)
 		}
 		check("partial", `<%= partial("failing") %>`)
 		check("partial", `a<%= partial("nested") %><%= partial("failing", {layout: "lay"}) %>`)
